@@ -2,7 +2,7 @@
     Property theorems only, about the per-window methods REGENERATED from the source (Gen/GenScalars.v;
     translation validated by correspondence K5).  [eql] = elementwise equality of rationals. *)
 From Coq Require Import QArith Qabs List Bool String.
-From IV Require Import QL Dist Ecdf QListFacts GenUtils GenScalars RatLS C16_compose C03_proofs C02_proofs C04_proofs C01_proofs C09_proofs RatLS_proofs Affine Affine_debiasers Driver Driver_rel ApplyLocation_units.
+From IV Require Import QL Dist Ecdf QListFacts GenUtils GenScalars RatLS C16_compose C03_proofs C02_proofs C04_proofs C01_proofs C09_proofs RatLS_proofs Affine Affine_debiasers Driver Driver_rel ApplyLocation_units ApplyLocation_param IsimipStep5 IsimipStep5_proofs.
 Import ListNotations.
 Open Scope Q_scope.
 
@@ -147,3 +147,39 @@ Theorem C04_qm_nonparametric_apply_location : forall (P : Type) (D : dist P) thr
                                              (Driver.driver_rw Q L S dobs dhist dfut obs' hist' fut' (ApplyLocation_units.W_qm_np D thr det)).
 Proof. exact @ApplyLocation_units.qm_np_apply_location_unit_change. Qed.
 Print Assumptions C04_qm_nonparametric_apply_location.
+
+Theorem C04_delta_change_apply_location : forall a b, 0 < a -> forall L S dobs dhist dfut obs hist fut obs' hist' fut',
+  Driver_rel.windows_nonempty L S dobs dobs dhist dfut obs hist fut -> Affine.ARL a b obs obs' -> Affine.ARL a b hist hist' -> Affine.ARL a b fut fut' ->
+  ApplyLocation_units.same_in_other_unit a b (Driver.driver_dc Q L S dobs dhist dfut obs hist fut (ApplyLocation_units.W_dc "additive"))
+                                             (Driver.driver_dc Q L S dobs dhist dfut obs' hist' fut' (ApplyLocation_units.W_dc "additive")).
+Proof. exact ApplyLocation_units.dc_apply_location_unit_change. Qed.
+Print Assumptions C04_delta_change_apply_location.
+
+(** parametric QuantileMapping and ECDFM through apply_location, for any distribution whose fit behaves like a
+    location-scale family under the change of units on the admissible samples ([good]); satisfiable: the rational
+    family on samples with non-zero spread *)
+Theorem C04_qm_parametric_apply_location : forall (P : Type) (D : dist P) a b, 0 < a -> forall good, fit_unit_change D a b good ->
+  forall thr L S dobs dhist dfut obs hist fut obs' hist' fut',
+  Driver_rel.windows_ok good good good L S dfut dobs dhist dfut obs hist fut -> Affine.ARL a b obs obs' -> Affine.ARL a b hist hist' -> Affine.ARL a b fut fut' ->
+  ApplyLocation_units.same_in_other_unit a b (Driver.driver_rw Q L S dobs dhist dfut obs hist fut (W_qm_param D thr)) (Driver.driver_rw Q L S dobs dhist dfut obs' hist' fut' (W_qm_param D thr)).
+Proof. intros P D a b Ha good Hf. exact (qm_param_apply_location_unit_change D a b good Hf). Qed.
+Print Assumptions C04_qm_parametric_apply_location.
+
+Theorem C04_ecdfm_apply_location : forall (P : Type) (D : dist P) a b, 0 < a -> forall good, fit_unit_change D a b good ->
+  forall thr L S dobs dhist dfut obs hist fut obs' hist' fut',
+  Driver_rel.windows_ok good good good L S dfut dobs dhist dfut obs hist fut -> Affine.ARL a b obs obs' -> Affine.ARL a b hist hist' -> Affine.ARL a b fut fut' ->
+  ApplyLocation_units.same_in_other_unit a b (Driver.driver_rw Q L S dobs dhist dfut obs hist fut (W_ecdfm D thr)) (Driver.driver_rw Q L S dobs dhist dfut obs' hist' fut' (W_ecdfm D thr)).
+Proof. intros P D a b Ha good Hf. exact (ecdfm_apply_location_unit_change D a b good Hf). Qed.
+Print Assumptions C04_ecdfm_apply_location.
+
+Theorem C04_fit_unit_change_satisfiable : forall a b, 0 < a -> fit_unit_change ratls a b ratls_good.
+Proof. exact ratls_fit_unit_change. Qed.
+Print Assumptions C04_fit_unit_change_satisfiable.
+
+(** ISIMIP step 5, additive trend preservation (hand model, K17): a change of units of the three series carries over
+    to the pseudo future observations *)
+Theorem C04_isimip_step5_additive : forall em im a b lb ub oh oh' ch ch' cf cf', 0 < a -> em = step_function \/ em = linear_interpolation ->
+  oh <> [] -> ch <> [] -> cf <> [] -> Affine.ARL a b oh oh' -> Affine.ARL a b ch ch' -> Affine.ARL a b cf cf' ->
+  Affine.ARL a b (step5 TAdditive em im lb ub oh ch cf) (step5 TAdditive em im lb ub oh' ch' cf').
+Proof. exact step5_additive_unit_change. Qed.
+Print Assumptions C04_isimip_step5_additive.
